@@ -189,6 +189,12 @@ fn root_dir() -> String {
 
 fn load_allow() -> BTreeSet<String> {
     let mut set = BTreeSet::new();
+    // signatures of known sites that moved to another line (computed by the driver, see c10_run.py relocate())
+    if let Ok(extra) = std::env::var("VERIF_C10_ALLOW_EXTRA") {
+        for s in extra.split(',').filter(|s| !s.is_empty()) {
+            set.insert(s.to_string());
+        }
+    }
     let path = format!("{}/known_findings.json", root_dir());
     let Ok(txt) = std::fs::read_to_string(&path) else { return set };
     let Ok(v) = serde_json::from_str::<serde_json::Value>(&txt) else { return set };
